@@ -100,6 +100,11 @@ pub struct TLife {
     /// thread can do).  They are served by the fake, so they are calls of this installation.
     #[serde(default)]
     pub early: u8,
+    /// the whole lifetime (set-up, calls, scope exit) runs from a fixture's `Drop` while the
+    /// thread is unwinding from a failed test body (tear-down code that uses fakes).  No exit
+    /// verdict can be raised there; installation and per-call accounting are as everywhere else.
+    #[serde(default)]
+    pub in_teardown: bool,
 }
 
 #[derive(Serialize, Deserialize, Clone, Debug, Hash, PartialEq, Eq)]
@@ -301,7 +306,7 @@ pub fn execute(c: &TimesCase) -> TimesObs {
             table.push(Some(build(l.site)));
         }
     }
-    for (li, l) in c.lifetimes.iter().enumerate() {
+    let mut run_life = |li: usize, l: &TLife, o: &mut TimesObs| {
         let mut lo = TLifeObs::default();
         let site = l.site % N_SITES;
         TIMES[site as usize].store(l.n as usize, SeqCst);
@@ -350,7 +355,7 @@ pub fn execute(c: &TimesCase) -> TimesObs {
             Err(_) => {
                 lo.install_panic = Some(crate::worker::last_panic());
                 o.lifetimes.push(lo);
-                continue;
+                return;
             }
         };
         crate::worker::phase("calls");
@@ -434,7 +439,24 @@ pub fn execute(c: &TimesCase) -> TimesObs {
         }
         lo.restored = addrs.iter().zip(&pristine).all(|(a, p)| &crate::mem::read_direct(*a, 16) == p);
         o.lifetimes.push(lo);
+    };
+    for (li, l) in c.lifetimes.iter().enumerate() {
+        if l.in_teardown {
+            struct TearDown<F: FnMut()>(F);
+            impl<F: FnMut()> Drop for TearDown<F> {
+                fn drop(&mut self) {
+                    (self.0)()
+                }
+            }
+            let _ = std::panic::catch_unwind(std::panic::AssertUnwindSafe(|| {
+                let _fixture = TearDown(|| run_life(li, l, &mut o));
+                panic!("the body of the test fails; the fixture's tear-down runs while the thread unwinds");
+            }));
+        } else {
+            run_life(li, l, &mut o);
+        }
     }
+    drop(run_life);
     // never run the verifiers of pairs that were not installed
     for p in table.into_iter().flatten() {
         std::mem::forget(p);
@@ -449,8 +471,8 @@ pub fn execute(c: &TimesCase) -> TimesObs {
 pub fn strategy(c07_bias: bool) -> impl Strategy<Value = TimesCase> {
     let n = prop_oneof![6 => 0u16..=8, 1 => Just(64u16), 1 => Just(300u16)];
     let second = prop::option::weighted(if c07_bias { 0.05 } else { 0.3 }, (0u8..N_SITES, 0u8..4, 0u8..5));
-    let extras = (prop::bool::weighted(0.3), prop::option::weighted(if c07_bias { 0.1 } else { 0.3 }, (any::<bool>(), 0u8..4, 0u8..5, any::<bool>())), prop_oneof![4 => Just(0u8), 1 => 1u8..=2]);
-    let life = (0u8..N_SITES, n, 0u16..=12, any::<u64>(), prop_oneof![2 => Just(1u8), 1 => 2u8..=16], prop::bool::weighted(0.2), 0u8..4, second, extras).prop_map(|(site, n, extra_sel, pattern, threads, exit_unwind, nonmatching, second, (pre_uncounted, refake, early))| {
+    let extras = (prop::bool::weighted(0.3), prop::option::weighted(if c07_bias { 0.1 } else { 0.3 }, (any::<bool>(), 0u8..4, 0u8..5, any::<bool>())), prop_oneof![4 => Just(0u8), 1 => 1u8..=2], prop::bool::weighted(if c07_bias { 0.25 } else { 0.12 }));
+    let life = (0u8..N_SITES, n, 0u16..=12, any::<u64>(), prop_oneof![2 => Just(1u8), 1 => 2u8..=16], prop::bool::weighted(0.2), 0u8..4, second, extras).prop_map(|(site, n, extra_sel, pattern, threads, exit_unwind, nonmatching, second, (pre_uncounted, refake, early, in_teardown))| {
         // half of the superseding counted fakes are exactly satisfied
         let refake = refake.map(|(counted, n2, k2, exact)| (counted, n2, if exact && counted { n2 } else { k2 }));
         // k in 0..=n+2 matching calls, j non-matching ones interleaved by `pattern`
@@ -462,7 +484,7 @@ pub fn strategy(c07_bias: bool) -> impl Strategy<Value = TimesCase> {
             let pos = ((pattern >> (x * 8)) as usize) % (calls.len() + 1);
             calls.insert(pos, false);
         }
-        TLife { site, n, calls, threads, exit_unwind, second, pre_uncounted, refake, early }
+        TLife { site, n, calls, threads, exit_unwind, second, pre_uncounted, refake, early, in_teardown }
     });
     let count = if c07_bias { 2usize..=8 } else { 1usize..=3 };
     (prop::collection::vec(life, count), 0u8..N_SITES, prop::bool::weighted(if c07_bias { 0.8 } else { 0.3 }), prop::bool::weighted(if c07_bias { 0.35 } else { 0.1 })).prop_map(|(mut lifetimes, site, same_site, prebuilt)| {
@@ -610,7 +632,13 @@ pub fn judge(rec: &mut Recorder, c: &TimesCase, ex: Exec, _hello: &Value) -> Res
         }
         let third_unmet = k3n3.map(|(k3, n3)| k3 != n3).unwrap_or(false);
         // exit verdict
-        if l.exit_unwind {
+        if l.in_teardown {
+            // the thread was unwinding already: no verdict is raised (that would be a double panic)
+            let allowed = if l.exit_unwind { 1 } else { 0 };
+            if lo.exit_panic.is_some() || lo.panics_at_exit != allowed {
+                return rec.fail(&sig("double-panic-while-unwinding/tear-down"), ctx(&format!("{} panic(s) were raised at scope exit (exit panic {:?}) although the thread was already unwinding when the scope ended ({} allowed)", lo.panics_at_exit, lo.exit_panic, allowed)));
+            }
+        } else if l.exit_unwind {
             if lo.panics_at_exit != 1 {
                 return rec.fail(&sig("double-panic-while-unwinding"), ctx(&format!("{} panics were raised while the scope was left by unwinding (exactly the user's one is allowed)", lo.panics_at_exit)));
             }
@@ -643,6 +671,9 @@ pub fn judge(rec: &mut Recorder, c: &TimesCase, ex: Exec, _hello: &Value) -> Res
         e.1 += absorbed;
         if c.prebuilt && repeated_site {
             rec.class("prebuilt-table/site-reused-after-calls");
+        }
+        if l.in_teardown {
+            rec.class(if repeated_site { "lifetime-inside-tear-down-while-unwinding/site-reused-after-calls" } else { "lifetime-inside-tear-down-while-unwinding" });
         }
         if l.pre_uncounted {
             rec.class(if repeated_site { "uncounted-fake-first/site-reused-after-calls" } else { "uncounted-fake-first" });
